@@ -9,7 +9,7 @@ from ..core import AnalysisError
 
 LEVEL = 'other'
 EXPLANATION = (
-    "Static analysis (dataflow lint + single-writer / paired-update rules). (R1) loop-overwrite lint over the whole package: inside a loop, an unconditional plain assignment to an attribute of a loop-invariant object whose right-hand side depends on the loop and not on the attribute itself keeps only the last iteration (positive fixture must match); (R2) single writers: history.append only in after_rule_apply, Rule.apply is @final and emits AFTER_RULE_APPLY once after _apply, rule.apply called only from Tableau.step and the two test helpers, the open list is appended/removed only in add_branch/after_close and a branch is listed open iff it is not closed, step numbers recorded are the current step; (R3) Branch.append refuses a closed branch first and branches never lose nodes; (R4) forks extend their parent: Tableau.branch(parent) = parent.copy(parent=parent), BranchCache.after_branch_add copies the parent's entry; (R5) the tree builder accumulates counts over children and gives every branch one leaf. Equality of every count with a recomputed value at every step of every proof is declined. (R6) build_trunk folded for every logic: premises in order, then the conclusion under Negation / undesignated.")
+    "Static analysis (dataflow lint + single-writer / paired-update rules). (R1) loop-overwrite lint over the whole package: inside a loop, an unconditional plain assignment to an attribute of a loop-invariant object whose right-hand side depends on the loop and not on the attribute itself keeps only the last iteration (positive fixture must match); (R2) single writers: history.append only in after_rule_apply, Rule.apply is @final and emits AFTER_RULE_APPLY once after _apply, rule.apply called only from Tableau.step and the two test helpers, the open list is appended/removed only in add_branch/after_close and a branch is listed open iff it is not closed, step numbers recorded are the current step; (R3) Branch.append refuses a closed branch first and branches never lose nodes; (R4) forks extend their parent: Tableau.branch(parent) = parent.copy(parent=parent), BranchCache.after_branch_add copies the parent's entry; (R5) the tree builder accumulates counts over children and gives every branch one leaf. Equality of every count with a recomputed value at every step of every proof is declined. (R6) build_trunk folded for every logic: premises in order, then the conclusion under Negation / undesignated. R2-R5 are folds throughout: current_step, Rule.apply, the listeners, Branch.closed, Tableau.branch, the BranchCache listeners, Tableau.Tree.make over mock tableaux (compared with the tree computed from the branches) and _compute_stats. (R7) node freshness (sa.fresh): in rules, helpers and logic modules no node built by a function is kept in state that outlives the call and is read back (attribute, container slot, global, memoising decorator) -- a kept node can land on two sibling branches, get two addition steps and be counted once per leaf.")
 TRUSTED = ['CPython ast', 'sa.astq loop/guard helpers']
 ASSUMPTIONS = ['EventEmitter delivers events synchronously and in registration order (not analysed)']
 
@@ -79,6 +79,7 @@ def loop_overwrites(fn):
 def run(ctx, rep):
     m = ctx.m
     r6(ctx, rep)
+    r7(ctx, rep)
     R1 = rep.rule('C16.R1', 'loop-overwrite lint: no accumulator attribute is plainly assigned inside a loop')
     ft = ast.parse(FIXTURE)
     fhits = [tgt for st, tgt in loop_overwrites(ft.body[0])]
@@ -454,3 +455,31 @@ def r6(ctx, rep):
             rep.finding(R6, f'C16.R6/{lg.name}/trunk', m.floc(fn), f'{lg.name}.System.build_trunk',
                         f'trunk for premises P1,P2 and conclusion C is {nodes}: not (P1+,P2+,C-) nor (P1,P2,~C) at the root world')
     rep.floor('C16.R6', 'logics', n, 57)
+
+
+def r7(ctx, rep):
+    """Node freshness (sa.fresh): what a rule or helper adds is built during the application."""
+    from .. import fresh
+    m = ctx.m
+    R7 = rep.rule('C16.R7', 'node freshness: in the rules, helpers and logic modules no node built by a function is kept in state that outlives the call '
+                            '(attribute, container slot, global, memoising decorator) -- a kept node can land on two sibling branches, gets two addition '
+                            'steps and is counted once per leaf by the finished tree')
+    mods = [x for x in sorted(m.trees) if x in ('pytableaux.proof.helpers', 'pytableaux.proof.rules', 'pytableaux.proof.tableaux', 'pytableaux.proof')
+            or x.startswith('pytableaux.logics.')]
+    sites, nfn, nbuilds, ctors = fresh.kept_nodes(m, mods)
+    for mod, qn, st, why in sites:
+        rep.instance(R7, ok=False, nontrivial=(mod, qn, astq.u(st)[:60]))
+        rep.finding(R7, f'C16.R7/{mod}:{qn}', m.loc(mod, st), qn, why)
+    MEMO = ('cached_property', 'lru_cache', 'cache', 'lazy', 'memoize', 'memoized')
+    ctorset = set(ctors)
+    for mod in mods:
+        for qn, fn in astq.all_functions(m.trees[mod]):
+            if not any(isinstance(c, ast.Call) and fresh.builds_node(c, ctorset, set()) for c in astq.walk_no_nested(fn)):
+                continue
+            rep.consult(f'{m.loc(mod, fn)} {qn}')
+            bad = [astq.u(d) for d in fn.decorator_list if any(x in astq.u(d).split('(')[0].split('.') for x in MEMO)]
+            rep.instance(R7, ok=not bad, nontrivial=(mod, qn))
+            for d in bad:
+                rep.finding(R7, f'C16.R7/{mod}:{qn}/memoised', m.loc(mod, fn), qn, f'`@{d}` memoises a function that builds a node')
+    rep.floor('C16.R7', 'functions building nodes', nfn, 40)
+    rep.floor('C16.R7', 'node constructors', len(ctors), 15)
